@@ -250,6 +250,7 @@ func (cx *pathCtx) beginPath(prefix []rec) {
 	if cx.f.Size() > 2_000_000 {
 		cx.f = NewFactory()
 	}
+	cx.f.distinct = map[[2]int]bool{} // distinctness facts hold only under this path's assumptions
 	if cx.s != nil {
 		cx.s.BeginPath()
 	}
